@@ -786,17 +786,24 @@ def np_any(ctx, x, axis=None, **kw):
         if len(b.shape_) == 2 and axis in (0, 1):
             return AxisAny(ctx, b, axis)
         raise Undecided("np.any(axis=%r)" % (axis,))
+    def truthy(idx):
+        # numpy truth of a cell: booleans as they are; numbers are true when non-zero, NaN is true
+        v = b.at(idx)
+        if isinstance(v, bool) or (isinstance(v, Sym) and v.is_bool):
+            return v
+        nz = (v != 0)
+        return Or(nz, b.isnan(idx))
     small = _small_indices(b.shape_)
     if small is not None:
-        return Or(*[b.at(i) for i in small])
+        return Or(*[truthy(i) for i in small])
     if ctx.free_branch():
         w = tuple(ctx.fresh_int("any_w%d" % k) for k in range(len(b.shape_)))
         ctx.assume(And(*[And(wi >= 0, wi < n) for wi, n in zip(w, b.shape_)]))
-        ctx.assume(b.at(w))
+        ctx.assume(truthy(w))
         ctx.ghost.setdefault('any_witness', []).append((x, w))
         return True
     shape = b.shape_
-    ctx.ufacts.append(lambda t: Implies(And(*[And(ti >= 0, ti < n) for ti, n in zip(t, shape)]), Not(b.at(t)))
+    ctx.ufacts.append(lambda t: Implies(And(*[And(ti >= 0, ti < n) for ti, n in zip(t, shape)]), Not(truthy(t)))
                       if isinstance(t, tuple) and len(t) == len(shape) else True)
     return False
 
